@@ -109,14 +109,15 @@ snapprop("C03", "proof", "Texel.Properties.C03",
     translators=["arith"])
 
 snapprop("C06", "other", "Texel.Properties.C06",
-    ["Texel.C06.C06_no_points_found_unreachable", "Texel.C06.C06_keys_encodable", "Texel.C06.C06_index_total", "Texel.C06.C06_ring_cleanup_total_partial", "Texel.C06.C06_total_up_to_kmp_partial", "Texel.C06.C06_removeSequences_sublist", "Texel.C06.C06_total_up_to_kmp_ranges_partial", "Texel.C06.C06_F16_strip"],
+    ["Texel.C06.C06_no_points_found_unreachable", "Texel.C06.C06_keys_encodable", "Texel.C06.C06_index_total", "Texel.C06.C06_ring_cleanup_total_partial", "Texel.C06.C06_total_up_to_kmp_partial", "Texel.C06.C06_removeSequences_sublist", "Texel.C06.C06_removeSequences_source", "Texel.C06.C06_total_up_to_kmp_ranges_partial", "Texel.C06.C06_F16_strip"],
     ["snap", "kmp", "split", FUNC],
     "Lean 4 theorems for the panic sites that are closed (no-points-found, MustToZ up to level 32, index construction, every panic of splitRing) + recover/watchdog exploration with adversarial sequences, function-level kmp/split correspondence",
     "Partial proof + exploration: the no-points-found panic, MustToZ up to level 32, the index construction and every panic of splitRing (stack index out of range, nil Newest, partial rings remaining) are proved unreachable for every in-grid polygon "
-    "(C06_ring_cleanup_total_partial, C06_total_up_to_kmp_partial: whatever snapPolygonF raises for a polygon inside the grid is raised by kmpDeduplicate, dedupeInnersOuters raises nothing; under the hypothesis KmpNoDup, checked on the real code by the kmp stream); that kmpDeduplicate never reaches its index and slice panics and always terminates is NOT proved "
+    "(C06_ring_cleanup_total_partial, C06_total_up_to_kmp_partial: whatever snapPolygonF raises for a polygon inside the grid is raised by kmpDeduplicate, dedupeInnersOuters raises nothing; under the hypothesis KmpNoDup, checked on the real code by the kmp stream; RemoveSequences is translated from the source and returns a sublist of the ring when the recorded ranges run forward, so KmpNoDup follows from KmpRangesForward: C06_removeSequences_source, C06_removeSequences_sublist); that kmpDeduplicate never reaches its index and slice panics and always terminates is NOT proved "
     "(the model carries them as Except errors and fuel) and is explored: arbitrary and adversarially repetitive sequences under recover and a 20 s watchdog, exhaustive small alphabets in the thorough tier. Known findings F7 (panic above level 32) and F16 (a vertex inside the extent, within the reported deviation of its right or top edge, is reported as outside the grid: C06_F16_strip shows the strip on the model).",
     "Assumes nothing beyond the trusted base; a panic or hang found on any generated input is reported with the input.",
-    extra_trusted=["totality of kmpDeduplicate (and the hypothesis KmpNoDup about it) is explored, not proved"])
+    extra_trusted=["totality of kmpDeduplicate (and the hypothesis KmpNoDup about it, reduced by C06_removeSequences_sublist to KmpRangesForward: the recorded ranges run forward; evaluated on the model for every ring of the kmp stream) is explored, not proved"],
+    translators=["removeseq"])
 
 snapprop("C01", "other", "Texel.Properties.C01",
     ["Texel.C01.properCross_symm", "Texel.C01.orient_swap", "Texel.C01.properCross_shared_endpoint", "Texel.C01.C01_ingredient_routing", "Texel.C01.C01_ingredient_shrink"],
@@ -128,7 +129,7 @@ snapprop("C01", "other", "Texel.Properties.C01",
     extra_trusted=["SnapRoundingNoCross and OutputEdgesAreRoutedRuns are not proved"])
 
 snapprop("C04", "other", "Texel.Properties.C04",
-    ["Texel.C04.C04_output_vertex_is_input_pixel", "Texel.C04.C04_routed_boundary_within_half_pixel", "Texel.C04.C04_edges_within_half_pixel_no_collapse", "Texel.C04.C04_routed_vertex_is_input_pixel", "Texel.C04.C04_address_contains_vertex", "Texel.C04.C04_dedup_vertices"],
+    ["Texel.C04.C04_output_vertex_is_input_pixel", "Texel.C04.C04_routed_boundary_within_half_pixel", "Texel.C04.C04_edges_within_half_pixel_no_collapse", "Texel.C04.C04_routed_vertex_is_input_pixel", "Texel.C04.C04_address_contains_vertex", "Texel.C04.C04_dedup_vertices", "Texel.C04.C04_dedupe_only_deletes", "Texel.C04.C04_matching_loses_nothing_partial"],
     ["snap", FUNC],
     "partial Lean 4 proof (first clause proved at full strength on the model: every output vertex is the pixel of an input vertex, through joining, spike removal, ring splitting, cancellation, hole matching, reversal and keep) + exact half-pixel-distance and coverage oracles on every implementation answer",
     "Partial proof + verified-oracle exploration: (a) is proved for everything snapPolygonF returns (C04_output_vertex_is_input_pixel); (b) is proved for the routed boundary of every ring, closing edge included (C04_routed_boundary_within_half_pixel: every point of every edge of joinChain(routeRing) is within half a pixel of the input ring, over Q), and through the whole of processLevel for polygons without holes on which nothing collapses (C04_edges_within_half_pixel_no_collapse); (b) half-pixel edge distance and (c) coverage beyond one pixel are decided per case by exact rational oracles "
